@@ -7,6 +7,7 @@ package c06
 import (
 	"context"
 	"fmt"
+	lunarcontext "lunar/engine/streams/lunar-context"
 	"os"
 	"sort"
 	"strings"
@@ -147,8 +148,8 @@ func build(sc scenario) *mc.SchedOpts {
 		Name:     sc.Name,
 		MaxSteps: 3000,
 		Quantum:  tick,
-		MaxT:    int(horizon / tick),
-		Focus:   []string{"lunar/engine/streams/processors/queue", "lunar/engine/streams/lunar-context.(*memoryQueue)", "lunar/engine/streams/resources/quota"},
+		MaxT:     int(horizon / tick),
+		Focus:    []string{"lunar/engine/streams/processors/queue", "lunar/engine/streams/lunar-context.(*memoryQueue)", "lunar/engine/streams/resources/quota"},
 		Body: func(x *mc.Exec) {
 			ctx, cancel := context.WithCancel(context.Background())
 			contextmanager.Get().WithContext(ctx)
@@ -326,6 +327,19 @@ func TestCheck(t *testing.T) {
 		if err := mc.LoadReplay(f, &rp); err != nil {
 			t.Fatal(err)
 		}
+		if rp.Scenario == "queue-level" {
+			var qr queueReplay
+			if err := mc.LoadReplay(f, &qr); err != nil {
+				t.Fatal(err)
+			}
+			rr := mc.New("C06", "exploration")
+			queueCase(t, rr, qr.Priorities, qr.Split, qr.RemoveA, qr.RemoveB)
+			fmt.Printf("queue-level case priorities=%v removals %d,%d after arrival %d: violations=%d\n", qr.Priorities, qr.RemoveA, qr.RemoveB, qr.Split, rr.NumFindings())
+			if rr.NumFindings() > 0 {
+				t.Fail()
+			}
+			return
+		}
 		for _, sc := range scenarios(true) {
 			if sc.Name == rp.Scenario {
 				if k := mc.ReplaySchedule(t, build(sc), rp.Choices); k != "" {
@@ -355,6 +369,7 @@ func TestCheck(t *testing.T) {
 		r.Finish(t)
 		return
 	}
+	queueLevel(t, r)
 	for _, sc := range scenarios(r.Thorough()) {
 		o := build(sc)
 		o.MaxPreempt, o.MaxEarlyT = pre, et
@@ -362,4 +377,125 @@ func TestCheck(t *testing.T) {
 		mc.Explore(t, r, o)
 	}
 	r.Finish(t)
+}
+
+// queueLevel: the in-memory shared queue the Queue processor waits in, driven sequentially:
+// n <= 6 (thorough 7) arrivals with priorities from {1,2,3} in every priority assignment, then the
+// removal of every subset of <= 2 waiters (a waiter whose TTL expired is removed from the middle
+// of the queue), either after all arrivals or after the first k, then everything is
+// dequeued.  The dequeue order must be (priority, arrival).
+func queueLevel(t *testing.T, r *mc.Run) {
+	maxN := mc.Pick(r, 6, 7)
+	idx := 0
+	for n := 1; n <= maxN; n++ {
+		prios := make([]int, n)
+		for {
+			for split := 1; split <= n; split++ { // removals happen after the first `split` arrivals
+				for a := -1; a < split; a++ {
+					for b := a; b < split; b++ {
+						if a == -1 && b != -1 {
+							continue
+						}
+						if a >= 0 && b == a && false {
+							continue
+						}
+						idx++
+						if !r.Mine(idx) {
+							continue
+						}
+						queueCase(t, r, prios, split, a, b)
+					}
+				}
+			}
+			k := n - 1
+			for k >= 0 {
+				prios[k]++
+				if prios[k] < 3 {
+					break
+				}
+				prios[k] = 0
+				k--
+			}
+			if k < 0 {
+				break
+			}
+		}
+	}
+}
+
+type queueReplay struct {
+	Scenario   string `json:"scenario"`
+	Priorities []int  `json:"priorities"`
+	Split      int    `json:"removals_after_arrival"`
+	RemoveA    int    `json:"remove_a"`
+	RemoveB    int    `json:"remove_b"`
+}
+
+func queueCase(t *testing.T, r *mc.Run, prios []int, split, ra, rb int) {
+	var got, want []string
+	mc.Bubble(t, func(t *testing.T) {
+		q := lunarcontext.NewMemoryQueue("q", time.Minute)
+		type w struct {
+			id   string
+			p, i int
+		}
+		var live []w
+		enq := func(i int) {
+			id := fmt.Sprintf("r%d", i)
+			q.Enqueue(id, float64(prios[i]+1))
+			live = append(live, w{id, prios[i] + 1, i})
+			time.Sleep(time.Microsecond)
+		}
+		for i := 0; i < split; i++ {
+			enq(i)
+		}
+		for _, x := range []int{ra, rb} {
+			if x < 0 {
+				continue
+			}
+			id := fmt.Sprintf("r%d", x)
+			q.Remove(id)
+			for j := range live {
+				if live[j].id == id {
+					live = append(live[:j], live[j+1:]...)
+					break
+				}
+			}
+		}
+		for i := split; i < len(prios); i++ {
+			enq(i)
+		}
+		sort.SliceStable(live, func(i, j int) bool {
+			if live[i].p != live[j].p {
+				return live[i].p < live[j].p
+			}
+			return live[i].i < live[j].i
+		})
+		for _, x := range live {
+			want = append(want, fmt.Sprintf("%s/p%d", x.id, x.p))
+		}
+		pr := map[string]int{}
+		for i, p := range prios {
+			pr[fmt.Sprintf("r%d", i)] = p + 1
+		}
+		for i := 0; i <= len(prios); i++ {
+			id := q.DequeueIfValueRelevant()
+			if id == "" {
+				break
+			}
+			got = append(got, fmt.Sprintf("%s/p%d", id, pr[id]))
+		}
+	})
+	r.Add("queue_level_cases", 1)
+	if ra >= 0 {
+		r.NonTrivial(fmt.Sprintf("queue|%v|%d|%d|%d", prios, split, ra, rb))
+	}
+	if strings.Join(got, " ") != strings.Join(want, " ") {
+		clause := "ORDER:queue-level"
+		if ra >= 0 {
+			clause = "ORDER:queue-level:after-removal"
+		}
+		r.Violation(clause, fmt.Sprintf("shared queue: arrivals with priorities %v (1 = first), waiters %d,%d removed after arrival %d: dequeued %v, expected %v", prios, ra, rb, split, got, want),
+			queueReplay{"queue-level", prios, split, ra, rb})
+	}
 }
